@@ -487,4 +487,48 @@ def r1_9(ctx: Ctx) -> RuleResult:
     return rr
 
 
-RULES = [r1_1, r1_2, r1_3, r1_4, r1_5, r1_6, r1_7, r1_8, r1_9]
+def r1_10(ctx: Ctx) -> RuleResult:
+    """The dot shorthand spells every RFC 9535 `member-name-shorthand`: name-first = ALPHA / "_" / %x80-D7FF /
+    %xE000-10FFFF, name-char = name-first / DIGIT.  The group of the lexer's dot-property rule (a folded constant)
+    is matched against one character from every range, in first and in later position."""
+    import re as _re
+
+    rr = RuleResult("R1.10", "the dot shorthand admits every RFC name character", floor=1)
+    lex = ctx.lexer
+    pat = lex.rule_pattern("DOT_PROPERTY")
+    try:
+        body = regexast.named_group(pat, "G_PROP", 0)
+        rx = _re.compile(body if isinstance(body, str) else pat)
+        use_group = not isinstance(body, str)
+    except Exception as err:  # noqa: BLE001
+        raise AnalysisError(f"R1.10: the dot-property rule {pat!r} cannot be examined: {err}") from err
+    first = {"ALPHA": ["a", "Z"], "_": ["_"], "%x80-D7FF": ["\u0080", "\u00e9", "\ud7ff"], "%xE000-FFFF": ["\ue000", "\uffff"],
+             "%x10000-10FFFF": ["\U00010000", "\U0001f600", "\U0010ffff"]}
+    missing = []
+
+    def ok(text: str) -> bool:
+        if use_group:
+            m = rx.fullmatch("." + text)
+            return m is not None and m.group("G_PROP") == text
+        return rx.fullmatch(text) is not None
+
+    for rng, chars in first.items():
+        for c in chars:
+            if not ok(c):
+                missing.append(f"{rng} as first character (U+{ord(c):04X})")
+            if not ok("a" + c):
+                missing.append(f"{rng} as later character (U+{ord(c):04X})")
+    for d in "09":
+        if not ok("a" + d):
+            missing.append(f"DIGIT as later character ({d})")
+    where = lex.compile_fn.loc()
+    if missing:
+        rr.bad(lex.compile_fn, lex.compile_fn.node, f"the dot shorthand (`$.name`) does not admit {missing[0]} and {len(missing) - 1} more "
+               f"RFC 9535 name characters ({sorted(set(m.split(' as ')[0] for m in missing))}): such a query is a syntax error "
+               "although the RFC grammar allows it", construct=f"dot shorthand lacks {sorted(set(m.split(' as ')[0] for m in missing))}")
+    else:
+        rr.ok(where, "dot shorthand: ALPHA, _, %x80-D7FF, %xE000-10FFFF first; the same and DIGIT after")
+    return rr
+
+
+RULES = [r1_1, r1_2, r1_3, r1_4, r1_5, r1_6, r1_7, r1_8, r1_9, r1_10]
